@@ -133,8 +133,19 @@ fn check(c: &Case) -> CaseResult {
                         k.sched.fail_once_at = Some(k.ops + 2 + u64::from(*sel % 3));
                         old
                     });
+                    s.clear_delivered();
                     let first: std::io::Result<Option<Vec<u8>>> = $get(&mut pm, id);
                     s.with(|k| k.sched = saved);
+                    // a lookup that survives the transient fault (by retrying internally) must still deliver the tile's
+                    // bytes and must not have read anything outside the tile's range
+                    if let Ok(t) = &first {
+                        ensure!(t.as_deref() == Some(&b.bytes[off as usize..(off + u64::from(len)) as usize]), format!("C20/lookup-across-transient-fault-wrong-bytes/{kind}"), "tile {id}: the lookup hit a transient fault part-way, reported success and returned other bytes");
+                        for r in s.delivered() {
+                            if r.0 < off || r.1 > off + u64::from(len) {
+                                fail!(format!("C20/lookup-reads-other-bytes/{kind}"), "lookup of tile {id} ([{off},{})) across a transient fault read [{},{})", off + u64::from(len), r.0, r.1);
+                            }
+                        }
+                    }
                     if first.is_err() {
                         // first the tile behind the victim (it starts where the aborted read would have ended) ...
                         if let Some(nid) = ids.get(vi + 1) {
